@@ -8,6 +8,8 @@ import (
 	"fmt"
 	"io"
 	"net"
+	"os"
+	"runtime"
 	"strings"
 	"sync"
 	"testing"
@@ -203,6 +205,18 @@ func (b *wrapBackend) Publish(c *broker.Client, msg *packet.Message, ack broker.
 	return err
 }
 
+// Restore can be made to fail once (the backend refuses after the client was accepted and got its CONNACK)
+func (b *wrapBackend) Restore(c *broker.Client) error {
+	b.w.mu.Lock()
+	fail := b.w.failRestore
+	b.w.failRestore = false
+	b.w.mu.Unlock()
+	if fail {
+		return errors.New("injected restore failure")
+	}
+	return b.MemoryBackend.Restore(c)
+}
+
 func (b *wrapBackend) Terminate(c *broker.Client) error {
 	b.w.logf("obs terminate %d", b.connOf(c))
 	b.w.record(ev{kind: "terminate", conn: b.connOf(c)})
@@ -253,35 +267,38 @@ type ev struct {
 }
 
 type World struct {
-	hist        []ev
-	o           *out.W
-	prop        string
-	be          *broker.MemoryBackend
-	wb          *wrapBackend
-	conns       map[int]*fconn
-	clients     map[int]*broker.Client
-	peers       map[int]*peer
-	nconn       int
-	mu          sync.Mutex
-	log         []string
-	trace       []string
-	bpublishes  map[int][]string
-	terminates  map[int]int
-	window      int
-	queue       int
-	seq         int
-	stalled     map[int]chan struct{}
-	mustSurvive map[int]bool
-	creds       map[string]string
-	noModel     bool // monitors only: the model is not asked (lines are written as comments)
-	longCase    bool // a very long, regular script: monitor hits carry the head and the tail of the trace only
-	concurrent  bool // stimuli were fired concurrently: order-sensitive monitors are switched off
+	hist         []ev
+	o            *out.W
+	prop         string
+	be           *broker.MemoryBackend
+	wb           *wrapBackend
+	conns        map[int]*fconn
+	clients      map[int]*broker.Client
+	peers        map[int]*peer
+	nconn        int
+	mu           sync.Mutex
+	log          []string
+	trace        []string
+	bpublishes   map[int][]string
+	terminates   map[int]int
+	window       int
+	queue        int
+	seq          int
+	stalled      map[int]chan struct{}
+	mustSurvive  map[int]bool
+	creds        map[string]string
+	failRestore  bool           // the next Backend.Restore fails
+	onDisconnect map[int]func() // run when the broker has read a DISCONNECT from that connection, before it acts on it
+	noModel      bool           // monitors only: the model is not asked (lines are written as comments)
+	longCase     bool           // a very long, regular script: monitor hits carry the head and the tail of the trace only
+	concurrent   bool           // stimuli were fired concurrently: order-sensitive monitors are switched off
 }
 
 func newWorld(o *out.W, prop string, window, queue int, creds map[string]string) *World {
 	w := &World{o: o, prop: prop, conns: map[int]*fconn{}, clients: map[int]*broker.Client{}, peers: map[int]*peer{},
 		bpublishes: map[int][]string{}, terminates: map[int]int{}, window: window, queue: queue}
 	w.noModel, w.concurrent = nextNoModel, nextNoModel
+	curWorld = w
 	nextNoModel = false
 	w.be = broker.NewMemoryBackend()
 	w.be.ClientInflightMessages = window
@@ -291,11 +308,20 @@ func newWorld(o *out.W, prop string, window, queue int, creds map[string]string)
 	w.wb = &wrapBackend{MemoryBackend: w.be, w: w, mode: "sync"}
 	w.stalled = map[int]chan struct{}{}
 	w.mustSurvive = map[int]bool{}
+	w.onDisconnect = map[int]func(){}
 	// a logger that can hold up a connection's goroutines (they all report through it)
-	w.be.Logger = func(_ broker.LogEvent, c *broker.Client, _ packet.Generic, _ *packet.Message, _ error) {
+	w.be.Logger = func(ev broker.LogEvent, c *broker.Client, pkt packet.Generic, _ *packet.Message, _ error) {
 		w.mu.Lock()
 		ch := w.stalled[w.wb.connOf(c)]
+		var hook func()
+		if _, isDisc := pkt.(*packet.Disconnect); isDisc && ev == broker.PacketReceived {
+			hook = w.onDisconnect[w.wb.connOf(c)]
+			delete(w.onDisconnect, w.wb.connOf(c))
+		}
 		w.mu.Unlock()
+		if hook != nil {
+			hook()
+		}
 		if ch != nil {
 			<-ch
 		}
@@ -341,7 +367,9 @@ func clonePacket(p packet.Generic) packet.Generic {
 var nextNoModel bool
 
 func (w *World) op(line string) {
+	w.mu.Lock()
 	w.trace = append(w.trace, line)
+	w.mu.Unlock()
 	if w.noModel {
 		w.o.Op("# "+line, "# "+line) // echoed by the driver: no model verdict for concurrently fired stimuli
 		return
@@ -645,7 +673,38 @@ func (w *World) finish() {
 	}
 }
 
+// curWorld is the world of the case that is running (for the watchdog)
+var curWorld *World
+
+// caseBudget is the real time one case may take.  A case that exceeds it is stuck: under synctest a deadlock that involves
+// a sync.Mutex is not detected (a goroutine waiting on a mutex is not "durably blocked"), Wait() simply never returns.
+var caseBudget = 150 * time.Second
+
 func runCase(t *testing.T, o *out.W, desc string, f func()) {
 	o.Case(desc)
+	curWorld = nil
+	// the watchdog lives outside the bubble: it sees real time
+	wd := time.AfterFunc(caseBudget, func() {
+		buf := make([]byte, 1<<20)
+		n := runtime.Stack(buf, true)
+		var trace []string
+		prop := *fProp
+		if w := curWorld; w != nil {
+			w.mu.Lock()
+			trace = append(trace, w.trace...)
+			w.mu.Unlock()
+			if len(trace) > 300 {
+				trace = append(append([]string{}, trace[:60]...), trace[len(trace)-200:]...)
+			}
+		}
+		stacks := string(buf[:n])
+		if len(stacks) > 12000 {
+			stacks = stacks[:12000]
+		}
+		o.Monitor(prop, "broker-stuck", fmt.Sprintf("case %q made no progress for %v of real time: goroutines of the broker are blocked for good (deadlock). Goroutine dump (truncated):\n%s", desc, caseBudget, stacks), trace)
+		o.Close()
+		os.Exit(0) // the hit is the verdict; the remaining cases of this shard are not run
+	})
 	synctest.Test(t, func(t *testing.T) { f() })
+	wd.Stop()
 }
